@@ -193,6 +193,7 @@ func c12Scenario(c *choice.Ctx, rep *report.R) {
 	}
 	impl, _ := env.Pipe(zvTCPAddr(vLocalV4), remote)
 	sc := &streamClient{impl: impl}
+	v.closers = append(v.closers, func() { impl.PeerFIN() })
 	go func() { srv.handleConn(impl); impl.Close() }()
 
 	q := refdns.Query(0x1212, refdns.N("edns", "example", "test"), 1, 1)
